@@ -90,6 +90,7 @@ func main() {
 	} else {
 		if rn.st {
 			rn.faultPhase()
+			rn.writeFaultPhase()
 		}
 		rn.histPhase()
 		rn.scenarioPhase([]string{"quietread-write", "quietread-create"})
